@@ -895,6 +895,19 @@ func (d *TD) exec(o Op) string {
 	case "redeem":
 		a.ID, a.Chips = o.ID, o.Chips
 		return d.call("PlayerRedeemChips", &a, func() error { return te.PlayerRedeemChips(pt.JoinPlayer{PlayerID: o.ID, RedeemChips: o.Chips, Seat: -1}) })
+	case "leaveout":
+		// a departure the schedule wants between hands: a participant of a running hand is left alone (recorded finding
+		// KF-midhand-leave)
+		st := d.table().State
+		for _, id := range o.IDs {
+			for _, p := range st.PlayerStates {
+				if p.PlayerID == id && p.IsParticipated && len(st.GamePlayerIndexes) > 0 {
+					return "skipped"
+				}
+			}
+		}
+		o.Op = "leave"
+		return d.exec(o)
 	case "leave":
 		a.IDs = append([]string{}, o.IDs...)
 		d.rec.Emit("call:PlayersLeave", a, "", d.te, nil, nil, false)
